@@ -95,9 +95,24 @@ class SCache:
             self._rg[key] = rg
         return rg
 
+    alias = False           # True: value-equal rows of different states are handed to the solver as ONE list object
+
+    def has_equal_rows(self):
+        seen = set()
+        for r in self.tl:
+            k = repr(r)
+            if k in seen:
+                return True
+            seen.add(k)
+        return False
+
     def game(self, rewards):
-        return dict(rewards=list(rewards), players=list(self.players),
-                    transition_list=[list(r) for r in self.tl], final_states=list(self.finals))
+        if self.alias:
+            shared = {}
+            tl = [shared.setdefault(repr(r), list(r)) for r in self.tl]
+        else:
+            tl = [list(r) for r in self.tl]
+        return dict(rewards=list(rewards), players=list(self.players), transition_list=tl, final_states=list(self.finals))
 
 
 class GameRun:
